@@ -397,6 +397,27 @@ mut('park-without-loop', 'run_one_job_now parks once without re-checking the sta
     E(C06=['ORD-C06-drain']))
 
 
+mut('dormant-thread-exits-early', 'the pool thread leaves its loop after one job without re-checking the schedule', CORE,
+    "                            if let Some(job_data) = job_data {\n                                job(job_data);\n                            } else {\n                                done = true;\n                            }",
+    "                            if let Some(job_data) = job_data {\n                                job(job_data);\n                                done = true;\n                            } else {\n                                done = true;\n                            }",
+    E(C03=['ORD-C03-dormant'], C10=['ORD-C03-dormant']))
+
+mut('schedulerfuture-sync-no-wait', 'SchedulerFuture::sync gives up instead of waiting on the queue', SF,
+    "        let result = self.scheduler.sync(&self.queue, || { self.result.lock().expect(\"Scheduler future result\").result.take() });",
+    "        let result = self.result.lock().expect(\"Scheduler future result\").result.take();",
+    E(C07=['ORD-C07-syncwait']))
+
+mut('pipestream-drop-not-closed', 'dropping the output stream wakes the producer but does not mark the core closed', PIPE,
+    "        // Mark the core as closed to stop it from reading from the stream\n        core.closed = true;\n",
+    "",
+    E(C16=['ORD-C16']))
+
+mut('drain-returns-while-awoken', 'drain gives up the thread on any Pending job, even when a wake was already recorded', JQ,
+    "                        if core.state == QueueState::WaitingForWake {\n                            return;\n                        }",
+    "                        if core.state == QueueState::WaitingForWake || core.state == QueueState::Running {\n                            return;\n                        }",
+    E(C03=['TOK-leak', 'PA-stuck', 'TOK-exec']))
+
+
 # ---- benign refactors: behaviour-preserving edits on which every check must stay silent ------------------------------------------
 B = []
 
